@@ -22,7 +22,7 @@ def profiles(thorough):
     p = Profile(nT=3, nS=5, nG=2, nC=6, nK=1, specs={"fn": 4, "mem": 2, "trk": 2, "bref": 1, "nest": 2}, body_prob=0.2,
                 len=(15, 60 if not thorough else 150),
                 w={"mkS": 10, "mkS0": 3, "cpS": 8, "mvS": 6, "asgS": 8, "masgS": 6, "setS": 3, "delS": 4, "discS": 4, "blockS": 5,
-                   "blockedS?": 6, "emptyS?": 8, "callS": 8, "conn": 6, "delT": 3, "emit": 4, "live?": 5},
+                   "blockedS?": 6, "emptyS?": 8, "boolS?": 5, "callS": 8, "conn": 6, "delT": 3, "emit": 4, "live?": 5},
                 bw={"discS": 3, "blockS": 3, "asgS": 2, "delT": 2, "throw": 0})
     return [p]
 
